@@ -465,6 +465,8 @@ func checkAADAgreement(c *Ctx) {
 	checkUnpadAcceptsPadding(c, "C12")
 	checkNarrowingFor(c, "C12")
 	checkAADConcat(c, "C12")
+	checkStreamLabelConsistent(c, "C12")
+	checkStreamReadsExact(c, "C12")
 	c.Check("C12/aad/stream", rule, p1, seal != "" && seal == open && strings.HasPrefix(seal, "appendBytes(HDR.Bytes()[:5],[]byte(streamLabel))"), "seal authenticates "+seal+", open authenticates "+open)
 	// appendBytes never aliases its first argument's spare capacity when it has to join two parts
 	ab := c.MustFunc("appendBytes")
@@ -696,4 +698,68 @@ func checkUnpadAcceptsPadding(c *Ctx, prop string) {
 	}
 	c.Floor("rejecting exits of the padding remover", nRej, 2)
 	c.Floor("accepting exits of the padding remover", nAcc, 1)
+}
+
+// checkStreamReadsExact: payload bytes announced by a header are taken from
+// the stream with a primitive that keeps reading until it has all of them. A
+// single Read returns whatever happens to be buffered (at most the 4 KiB of
+// the bufio reader when neither compression nor encryption put the message in
+// memory first), so a bare Read silently truncates large messages.
+func checkStreamReadsExact(c *Ctx, prop string) {
+	p := c.P
+	rule := "announced payload bytes are read in full: no bare Read on a stream outside a forwarding Read method; every ReadAtLeast/ReadFull fills a buffer of exactly the announced length and demands all of it"
+	c.Rule(rule)
+	isRead := func(f *types.Func) bool {
+		if f == nil || f.Name() != "Read" {
+			return false
+		}
+		sig, ok := f.Type().(*types.Signature)
+		if !ok || sig.Recv() == nil || sig.Params().Len() != 1 || sig.Results().Len() != 2 {
+			return false
+		}
+		sl, ok := sig.Params().At(0).Type().Underlying().(*types.Slice)
+		return ok && types.Identical(sl.Elem(), types.Typ[types.Byte])
+	}
+	forwards, bare := 0, 0
+	for _, fn := range p.SortedFuncs() {
+		ast.Inspect(fn.Decl.Body, func(n ast.Node) bool {
+			call, ok := n.(*ast.CallExpr)
+			if !ok || !isRead(p.Callee(call)) {
+				return true
+			}
+			if isRead(fn.Obj) {
+				forwards++ // an io.Reader implementation handing the call on
+				return true
+			}
+			bare++
+			c.Check(prop+"/stream-reads/no-bare-read/"+fn.Name, rule, call.Pos(), false, "a single Read takes what is buffered, not the announced length: messages larger than the reader's buffer (or arriving in several segments) are dropped as short reads")
+			return true
+		})
+	}
+	// positive control: the matcher recognises the one forwarding Read the package has
+	c.Floor("forwarding Read methods recognised (positive control of the bare-Read matcher)", forwards, 1)
+	n := 0
+	for _, name := range []string{"Memberlist.readUserMsg", "Memberlist.readRemoteState"} {
+		fn := c.MustFunc(name)
+		x := c.flow(fn, map[string]string{})
+		for _, e := range x.Effects {
+			if e.Class != "IO:ReadAtLeast" && e.Class != "IO:ReadFull" {
+				continue
+			}
+			n++
+			buf := strings.ReplaceAll(untok(e.Detail["arg1"]), "~", "")
+			ok := true
+			why := ""
+			if e.Class == "IO:ReadAtLeast" {
+				min := strings.ReplaceAll(untok(e.Detail["arg2"]), "~", "")
+				ok = buf == "make([]byte,"+min+")" && strings.Contains(min, ".User")
+				why = "reads at least " + min + " bytes into " + buf
+			} else {
+				ok = strings.HasPrefix(buf, "make([]byte,") && strings.Contains(buf, ".User")
+				why = "fills " + buf
+			}
+			c.Check(prop+"/stream-reads/exact/"+name, rule, e.Pos, ok, why+": not the header's announced length")
+		}
+	}
+	c.Floor("sized payload reads", n, 2)
 }
